@@ -205,6 +205,25 @@ def run_accept(cfg, rq, own_max=65536, peer_max=16384, user_first=False, probe=N
                 notes['dispatch_ctx_id'] = (ctx.id, c['id'])
         disp.append({'id': c['id'], 'served': served, 'as': sop if served else c['as'], 'ts': ts})
     ans['dispatch'] = disp
+    # the same probes as successive requests of ONE association: each must be dispatched on the context it arrived on
+    served_ctxs = [c for c, dsp in zip(ctxs, disp) if dsp['served']]
+    if len(served_ctxs) > 1:
+        rec.calls = []
+        script = [pdu.AAssociateRqPDU.decode(req_bytes)]
+        for c in served_ctxs:
+            msg = dm.CEchoRQMessage()
+            msg.sop_class_uid = c['as']
+            msg.message_id = 7
+            script.append((msg, c['id']))
+        run_handler(ae, own_max, script)
+        got = [call[0].id for call in rec.calls]
+        want = [c['id'] for c in served_ctxs]
+        if got != want:
+            notes['dispatch_in_sequence'] = (got, want)
+        else:
+            for call, c, dsp in zip(rec.calls, served_ctxs, [x for x in disp if x['served']]):
+                if str(call[0].supported_ts) != dsp['ts'] or str(call[0].sop_class) != dsp['as']:
+                    notes['dispatch_in_sequence'] = ((call[0].id, str(call[0].sop_class), str(call[0].supported_ts)), (c['id'], dsp['as'], dsp['ts']))
     return ans, acc, ann, notes
 
 
@@ -298,14 +317,19 @@ def send_after_negotiation(assoc, sizes, rng, ctx=1):
             return lens, False, 'send raised %s: %s' % (type(exc).__name__, exc)
         pdus = assoc.dul.sent[n0] if len(assoc.dul.sent) > n0 else []
         cmd, dat = b'', b''
+        flags = {True: [], False: []}          # last-fragment flags of the command / data stream, in order
         for p in pdus:
             declared, pdvs, total = D.parse_pdata(p)
             lens.append(limbs(declared))
             for c, h, payload in pdvs:
+                flags[bool(h & 1)].append(bool(h & 2))
                 if h & 1:
                     cmd += payload
                 else:
                     dat += payload
-        if dat != (data or b'') or not cmd:
+        # "able to send": the peer's reassembler must see the whole message and its end
+        complete = flags[True][-1:] == [True] and not any(flags[True][:-1]) and \
+            ((not data and not flags[False]) or (flags[False][-1:] == [True] and not any(flags[False][:-1])))
+        if dat != (data or b'') or not cmd or not complete:
             delivered = False
     return lens, delivered, None
